@@ -9,7 +9,10 @@ validation (V): a seedable variant of libtopology/tests/beautify.cpp (random gra
 routes, ConstrainedFDLayout with ColaTopologyAddon, library assertions enabled as exceptions), result checked by the
 extracted verified checker (no segment through a foreign node, no node overlap, endpoints preserved, bends on corners
 turning round their node); explicit scene families (checks/c13lib.py): lattice pinch / lattice / resize scenes and the DRAG family
-(one TopologyConstraints instance kept alive over solves with changing desired positions: drag a node into an edge and back)."""
+(one TopologyConstraints instance kept alive over solves with changing desired positions: drag a node into an edge and back), and the
+COMB family ("many events in one pass": a node dragged in ONE ColaTopologyAddon::moveTo across 20..80 near-parallel edges, more than the 100 solve()
+iterations of the addon's budget) with the loop-level oracle of Topology/MoveTo.v: coords == rectangle centres, and the state after the call is the
+state after some number of safe steps of a reference loop (harness MI line), DESIGN 9.17."""
 import os, json, re
 from fractions import Fraction
 from vlib import common as C
@@ -162,17 +165,22 @@ def split_scene_output(out):
 
 def check_phases(spec_exe, groups):
     """groups: list of phase lists; one driver call; returns per group the list of driver rows"""
-    din, cnt = ['EPS 1 -20'], 0
+    din, cnt, idx = ['EPS 1 -20'], 0, []
     for phases in groups:
+        prev = None
         for p in phases:
-            din += p['lines']; cnt += 1
+            if prev is not None and p['lines'] == prev:       # identical to the previous state of the scene (`op<i>.it<last>` == `op<i>`): judged once
+                idx.append(cnt - 1)
+                continue
+            din += p['lines']; idx.append(cnt); cnt += 1
+            prev = p['lines']
     rc, lout, lerr, dt = C.sh([spec_exe, 'layout'], input='\n'.join(din) + '\n', timeout=900)
     ll = [l.split() for l in lout.split('\n') if l]
     if len(ll) != cnt:
         return None, lerr[-800:]
     out, k = [], 0
     for phases in groups:
-        out.append(ll[k:k + len(phases)]); k += len(phases)
+        out.append([ll[j] for j in idx[k:k + len(phases)]]); k += len(phases)
     return out, None
 
 
@@ -361,7 +369,7 @@ def assert_fingerprint(exc):
 
 def run_scene_families(res, tier, rng, exe, spec_exe):
     from checks import c13lib as L
-    nq = (400, 300, 400, 300, 16) if tier == 'quick' else (3000, 2000, 3000, 2500, 240)
+    nq = (400, 300, 400, 300, 12) if tier == 'quick' else (3000, 2000, 3000, 2500, 240)
     if os.environ.get('C13_COMB_N') is not None:      # number of scenes of the `comb` family (many events in one moveTo pass), for soaks
         nq = nq[:4] + (int(os.environ['C13_COMB_N']),)
     scenes = []
@@ -894,7 +902,14 @@ META = {
                 'branch returns a negative alpha (no move) and its COLA_ASSERT cannot fail; for the hand model of the min-alpha move of '
                 'TopologyConstraints::solve() (alpha* = min(1, min_t maxSafeAlpha t), all nodes to initial + alpha*(final-initial) when alpha* > 0) '
                 'every triangle constraint that held before a step holds after it, for any number of steps with arbitrary desired positions '
-                '(C13_step, C13_steps_partial).  PARTIAL for the property as a whole: completeness of the scan-line constraint constructor and the '
+                '(C13_step, C13_steps_partial).  Loop level (Topology/MoveToModel.v, MoveTo.v: hand model of the solve loop of ColaTopologyAddon::moveTo - '
+                'repeat { solve() = VPSC result, safe step, one topology event } while interrupted, at most N times, then read the rectangle centres back; the '
+                'VPSC results and the constraint sets after the events are an arbitrary oracle, premise: the set installed by an event holds at the moved '
+                'positions = assertFeasible() at the end of solve()): for EVERY budget N, also when it is exhausted, the returned coordinates are exactly the '
+                'rectangle centres of the state reached by k safe steps (1 <= k <= max 1 N) and every constraint of that state holds '
+                '(C13_moveTo_positions_are_last_safe_state, C13_moveTo_every_step_safe); moving the rectangles on to var->finalPosition after the loop is a '
+                'no-op when the loop ended un-interrupted (C13_moveTo_teleport_noop_when_converged) and is refuted when the budget ran out '
+                '(C13_moveTo_teleport_safe_refuted: budget 100, vm_compute witness; _moving: every iteration moves).  PARTIAL for the property as a whole: completeness of the scan-line constraint constructor and the '
                 'bend split/merge surgery of satisfy() are not modelled; they are covered only by the verified checker run on real layout runs, '
                 'which DOES find rare failures on the unchanged tree (known finding rare_segment_through_node) and, on lattice-aligned node sets, '
                 'systematic failures at exact ties (known findings lattice_corridor_tie, rare_segment_through_node:end_node_neighbour).',
@@ -918,6 +933,18 @@ META = {
                   'step, and whenever every node is back where the session started the paths must be the paths of the start (sound: strict start state, unique '
                   'taut path per homotopy class, one-axis motion of non-overlapping boxes has a convex configuration space). Failures of the generic-coordinate '
                   'drag scenes are never put in the residual class; they found rare_segment_through_node:end_node_shadow (classifier end_node_shadow: the node '
-                  'crossed by an END segment was hidden behind that segment\'s own end node at both of its scan positions when the instance was constructed).',
+                  'crossed by an END segment was hidden behind that segment\'s own end node at both of its scan positions when the instance was constructed). '
+                  'Comb family ("many events in one pass", DESIGN 9.17): 1-3 movers dragged in ONE ColaTopologyAddon::moveTo (scene op MOVE; the harness calls the '
+                  'addon\'s public moveTo directly, and through ConstrainedFDLayout::run -> setPosition -> moveTo with Locks in the LAYOUT variant) across 20..80 '
+                  'near-parallel edges / a fan out of one hub / alternating edge directions, generic coordinates, both axes; about two thirds of the scenes need '
+                  'more topology events than the addon\'s budget of 100 solve() iterations. Tie of the loop model by observable behaviour: for EVERY MOVE op of every '
+                  'family the harness prints an MI line - max |coords[] - rectangle centre| after the call, and the comparison of the state after the call (node '
+                  'centres <= 1e-9 and (node, corner) paths) with every iteration of a reference loop (the library\'s own TopologyConstraints::solve() repeated, up '
+                  'to 600 times, on a copy of the scene made before the call). The model predicts: coords == centres, the state IS a reference state (after k >= 1 '
+                  'safe steps, whatever the budget), and the verified checker accepts it; a MOVE op that breaks one of these is a violation (codes 6; the budget '
+                  'itself is not pinned: raising it to 1000 stays quiet). The iteration cap is a local of moveTo and not observable without a hook: it is inferred '
+                  'as "the reference went on after the matching iteration" (unchanged tree: match at iteration 100). Extra sound oracle for MOVE (code 7): a node '
+                  'whose extent in the fixed axis lies strictly between the end points of an edge that is straight before and after the op must not change sides. '
+                  'check_phases judges a state identical to the previous state of the scene once.',
     'technique': 'Coq proof over cpp2v-regenerated Gallina + correspondence on dyadic/boundary inputs + verified checker on real layout runs',
 }
